@@ -895,7 +895,7 @@ class Fxp():
                 _int_max, _int_min = int(np.max(val)), int(np.min(val))
                 # (unsigned 64 bits arrays beyond the int64 range keep their two's complement meaning)
                 if not (val.dtype.kind == 'u' and _int_max >= _int_limit):
-                    _big_int = _int_max * conv_factor >= _int_limit or _int_min * conv_factor < -_int_limit
+                    _big_int = _int_max * conv_factor >= _int_limit or _int_min * conv_factor < -_int_limit or conv_factor >= _int_limit
             if _big_int or np.max(val) >= 2**_n_word_max_ or np.min(val) < -2**_n_word_max_ or self.n_word >= _n_word_max_:
                 val_dtype = object
                 val = val.astype(object)
